@@ -262,6 +262,43 @@ def r63(ctx):
                    where=f"{rb.file}:{c.line}", sample=a)
 
 
+def _merge_kinds(ctx, cb):
+    """how a closure `|e| ..` updates *e from a captured amount: {"max"}, {"min"}, {"overwrite"} or a mix"""
+    from engine import atoms
+    kinds = set()
+    for bi2, c2 in cb.calls():
+        n2 = c2.callee.name if c2.callee else ""
+        if n2.endswith("cmp::max") or n2.endswith("Ord::max"):
+            kinds.add("max")
+        elif n2.endswith("cmp::min") or n2.endswith("Ord::min"):
+            kinds.add("min")
+    fv = fnview(ctx, cb, policy=False)
+    for bi2 in sorted(fv.live_blocks()):
+        for st in cb.stmts(bi2):
+            if st.kind != "a" or "*" not in st.place.proj or not (1 <= st.place.local <= cb.argc) or not st.rv.ops:
+                continue
+            val = fv.expr(st.rv.ops[0])
+            if val[0] in ("max", "min"):
+                kinds.add(val[0])
+                continue
+            if val[0] == "call":
+                continue        # max()/min() result, counted above
+            dst = fv.place_expr(st.place)
+            try:
+                le = atoms.cmp_atom("<=", val, dst)
+                ge = atoms.cmp_atom(">=", val, dst)
+            except Exception:
+                kinds.add("overwrite")
+                continue
+            if bi2 not in fv.reach(0, cut_edges=atoms.scenario_cut(fv, [le])):
+                kinds.add("max")        # stored only when the new amount is larger
+            elif bi2 not in fv.reach(0, cut_edges=atoms.scenario_cut(fv, [ge])):
+                kinds.add("min")
+            else:
+                kinds.add("overwrite")
+    return kinds
+
+
 def r64(ctx):
     ctx.rule("R6.4", "per-channel payment summaries are conservative: outgoing = union with max over (holder offered, "
                      "counterparty received); incoming = intersection with min over (holder received, counterparty offered)")
@@ -297,13 +334,10 @@ def r64(ctx):
             ctx.ob("R6.4", got.get(side) == {w[side]}, f"{b.name}/{side}-list",
                    f"{fn} takes {sorted(got.get(side, []))} from the {side} commitment (expected {w[side]})", where=f"{b.file}:{b.line}",
                    sample=f"{side} -> {w[side]}")
-        # the merge of the two per-hash amounts
+        # the merge of the two per-hash amounts: max()/min() call, or a store guarded by the comparison
         cmps = set()
         for cb in cl:
-            for bi2, c2 in cb.calls():
-                n2 = c2.callee.name if c2.callee else ""
-                if n2.endswith("cmp::max") or n2.endswith("cmp::min") or n2.endswith("Ord::max") or n2.endswith("Ord::min"):
-                    cmps.add("max" if n2.endswith("max") else "min")
+            cmps |= _merge_kinds(ctx, cb)
         ctx.ob("R6.4", cmps == {w["merge"]}, f"{b.name}/merge",
                f"{fn} merges the holder and counterparty amounts of one payment with {sorted(cmps)} (expected {w['merge']}): "
                + ("the in-flight outgoing amount is under-counted and an invoice can be overpaid" if fn == "payments_summary"
